@@ -438,16 +438,25 @@ fn wrap_script(r: &mut Rng, _index: u64, _tier: Tier) -> (CaseCfg, Vec<Step>) {
     s.push(connect_with(SpMode::Force(true), AckMode::Hold, vec![]));
     let n_long = r.range(1, 3);
     let mut tag = 0;
+    // one case in three: the long-lived operations are QoS 2 exchanges in their release phase
+    // (PUBREC answered with PUBREL, PUBCOMP withheld): their identifiers live in the release
+    // list only, and nothing else is retained when the counter comes round
+    let release_phase = r.chance(1, 3);
     for _ in 0..n_long {
         tag += 1;
-        s.push(match r.below(4) {
+        s.push(match if release_phase { 2 } else { r.below(4) } {
             0 => Step::Subscribe(SubSpec { filters: vec![FilterSpec { filter: "w/#".into(), max_qos: 1, no_local: false, rap: false, rh: 0 }], props: vec![], cancel_at: None }),
             1 => Step::Unsubscribe(UnsubSpec { filters: vec!["w".into()], props: vec![], cancel_at: None }),
             2 => pubq(2, "long", tag, 5),
             _ => pub1("long", tag, 5),
         });
     }
-    // optionally move a QoS 2 exchange into the release phase (PUBREC released, PUBCOMP withheld)
+    if release_phase {
+        s.push(Step::Broker(BrokerAct::Release { n: 99, order: Order::Fifo }));
+        for _ in 0..2 * n_long + 1 {
+            s.push(poll0());
+        }
+    }
     s.push(Step::DropConn);
     // position the counter shortly before the wrap, either directly or by really burning identifiers
     let before: u16 = 65535 - r.below(4) as u16;
@@ -843,7 +852,7 @@ pub fn all() -> Vec<Box<dyn Check>> {
         max_steps: 70,
         epilogue_polls: 0,
         min_nt: (200, 2000),
-        required: vec!["allocations_with_ids_in_use", "wraps_observed"],
+        required: vec!["allocations_with_ids_in_use", "wraps_observed", "allocations_with_only_released_ids_in_use"],
         exhaustive: false,
     }),
     Box::new(MixCheck {
@@ -931,11 +940,19 @@ pub fn all() -> Vec<Box<dyn Check>> {
     Box::new(crate::requests::C20),
     Box::new(crate::twins::C13),
     Box::new(crate::twins::C15),
-    gen_check!("C14", "exploration",
-        "programs against brokers announcing Maximum Packet Size in {2..64,127,128,129,absent} with requests sized so that the encoded packet lands within +-3 bytes of the limit (publish at every QoS, subscribe, unsubscribe, disconnect), owed acknowledgements in 4- and 5-byte forms, retained packets replayed under a smaller limit, receive buffers 24..256 bytes with inbound packets of rx-2..rx+2 bytes. Non-trivial iff a packet within +-3 bytes of the limit was sent, a request was refused as too large, a mandatory packet did not fit or an oversize inbound packet arrived.",
-        COMMON_ASSUME.to_vec(),
-        vec![("mps-edges", 5000, 500_000, mps_edges as ProfileFn), ("general", 1000, 100_000, general)],
-        m::c14::check, 70, 0, (200, 2000), vec!["too_large_refusals", "mandatory_packet_did_not_fit", "oversize_inbound_rejected"]),
+    Box::new(MixCheck {
+        id: "C14",
+        level: "exploration",
+        rule: concat!("programs against brokers announcing Maximum Packet Size in {2..64,127,128,129,absent} with requests sized so that the encoded packet lands within +-3 bytes of the limit (publish at every QoS, subscribe, unsubscribe, disconnect), owed acknowledgements in 4- and 5-byte forms, retained packets replayed under a smaller limit, receive buffers 24..256 bytes with inbound packets of rx-2..rx+2 bytes. Non-trivial iff a packet within +-3 bytes of the limit was sent, a request was refused as too large, a mandatory packet did not fit or an oversize inbound packet arrived.", " Scripted workload `mandatory-acks`: Maximum Packet Size 2..8 on a fresh or resumed connection x the packet the client owes {PUBACK, PUBREC for a first delivery, PUBREC for a redelivery of an exchange left open by the previous connection, PUBCOMP, PUBREL of an outbound exchange}: whenever the owed packet does not fit, the call reports it and the handle is dead afterwards."),
+        assumptions: COMMON_ASSUME.to_vec(),
+        workloads: vec![("mps-edges", 5000, 500_000, Source::Gen(mps_edges)), ("general", 1000, 100_000, Source::Gen(general)), ("mandatory-acks", 600, 20_000, Source::Script(crate::scripts::c14_script))],
+        monitor: m::c14::check,
+        max_steps: 70,
+        epilogue_polls: 0,
+        min_nt: (200, 2000),
+        required: vec!["too_large_refusals", "mandatory_packet_did_not_fit", "oversize_inbound_rejected", "acks_owed_under_tiny_limit"],
+        exhaustive: false,
+    }),
     gen_check!("C18", "exploration",
         "status of every operation handle is queried after every step and compared with a reference model (pending until the final ack was consumed in the issuing session, invalidated once a fresh-session CONNACK was consumed); failure codes must surface as Rejected from the consuming call. Non-trivial iff a status transition was observed.",
         COMMON_ASSUME.to_vec(),
